@@ -12,8 +12,8 @@ from vlib import *
 PID = "C10"
 VERDICT_CFG = "ServerTraceC10.cfg"
 QUERIES = "none"
-LONG = False
-SLICES = [100]
+LONG = True     # identifiers of >= 16 bytes live in the collected string table: stale handles show as wrong diagnostics
+SLICES = [100, 1]
 
 
 def event_to_op(e):
